@@ -23,7 +23,9 @@ ASSUMPTIONS = ['rename is atomic (POSIX); a crash loses at most what was not yet
                'one model clock for rolllog.time and rolllog.datetime.now, strictly increasing (restart with the clock behind the newest file is refused by design)']
 BUDGET = {'quick': 45, 'thorough': 900}
 
-STAGES = ['none', 'before_open', 'after_open', 'torn_write', 'lost_buffer', 'after_close', 'after_rename']
+STAGES = ['none', 'before_open', 'after_open', 'torn_write', 'lost_buffer', 'after_close', 'after_rename',
+          # whatever the save does to the directory (rename, replace, unlink, remove, link): death right before / right after its n-th such call
+          'os_before:0', 'os_after:0', 'os_before:1', 'os_after:1', 'os_before:2']
 
 
 class Crash(BaseException):
@@ -85,13 +87,25 @@ class OsProxy:
     def __getattr__(self, name):
         return getattr(self._real, name)
 
-    def rename(self, a, b):
-        self._real.rename(a, b)
-        if self._arm.get('stage') == 'after_rename':
-            self._arm['stage'] = None
-            self._arm['fired'] = True
-            self._arm['crashed'] = True
+    def _dir_op(self, name, *paths):
+        arm = self._arm
+        mine = any(str(p).startswith(arm.get('head') or '\0') for p in paths)
+        n = arm.get('osn', 0)
+        if mine:
+            arm['osn'] = n + 1
+            if arm.get('stage') == f'os_before:{n}':
+                arm['stage'], arm['fired'], arm['crashed'] = None, True, True
+                raise Crash()
+        getattr(self._real, name)(*paths)
+        if mine and (arm.get('stage') == f'os_after:{n}' or (name == 'rename' and arm.get('stage') == 'after_rename')):
+            arm['stage'], arm['fired'], arm['crashed'] = None, True, True
             raise Crash()
+
+    def rename(self, a, b): self._dir_op('rename', a, b)
+    def replace(self, a, b): self._dir_op('replace', a, b)
+    def unlink(self, a): self._dir_op('unlink', a)
+    def remove(self, a): self._dir_op('remove', a)
+    def link(self, a, b): self._dir_op('link', a, b)
 
 
 def install_faults(arm):
@@ -113,7 +127,7 @@ def install_faults(arm):
                 arm['fired'] = True
                 arm['crashed'] = True
                 raise Crash()
-            if st_ != 'after_rename':
+            if st_ != 'after_rename' and not st_.startswith('os_'):
                 arm['stage'] = None
             arm['fired'] = True
             return CrashFile(f, st_, path, arm)     # also for 'after_rename': the file may still be open when the rename happens
@@ -173,7 +187,7 @@ def run_case(case):
             def do_save(stage, closing):
                 nonlocal saved_floor, reads_since_save
                 stats['saves'] += 1
-                arm['stage'], arm['fired'], arm['crashed'] = (None if stage == 'none' else stage), False, False
+                arm['stage'], arm['fired'], arm['crashed'], arm['osn'] = (None if stage == 'none' else stage), False, False, 0
                 floor_now = r.floor
                 try:
                     if closing:
